@@ -150,16 +150,3 @@ Example html_endtag_faithful_nonvacuous :
     view_bytes (lbuf (lz l')) v = [60; 47; 97; 32; 88; 61; 89; 32; 62] /\ ltext l' = Some t /\
     view_bytes (lbuf (lz l')) t = [97; 32; 88; 61; 89].
 Proof. eexists _, _, _. split; [vm_compute; reflexivity|]. split; [vm_compute; reflexivity|]. split; [reflexivity|vm_compute; reflexivity]. Qed.
-
-(* still false (found while re-reading shiftRawText after the fix): inside the "<!--" section of a script the end tag
-   test has no such check: "<script><!--a</script-x>" ends the raw text before "</script-x>" *)
-Lemma html_rawtext_script_comment_prefix_refuted_proof :
-  let d := [60;115;99;114;105;112;116;62;60;33;45;45;97;60;47;115;99;114;105;112;116;45;120;62;98;45;45;62;60;47;115;99;114;105;112;116;62] in
-  exists tr, run no_tmpl 4 (new_lexer d) = Ok tr /\
-    map (fun r => (fst (fst r), snd (fst r))) tr =
-      [(StartTagT, Some (mkSl 0 7)); (StartTagCloseT, Some (mkSl 7 1)); (TextT, Some (mkSl 8 5)); (EndTagT, Some (mkSl 13 11))] /\
-    (exists r, nth_error tr 3 = Some r /\
-       match ltext (snd r) with Some t => view_bytes (lbuf (lz (snd r))) t = [115;99;114;105;112;116;45;120] | None => False end).
-Proof.
-  eexists. split; [vm_compute; reflexivity|]. split; [reflexivity|]. eexists. split; [reflexivity|]. vm_compute. reflexivity.
-Qed.
